@@ -1,7 +1,7 @@
 import EAO.Model.State
 /-!
-# EAO.Lemmas.State — helper lemmas for C10 (slot logic of `EAO.Model.State`)
-Core Lean only.
+# EAO.Lemmas.State — helper lemmas for C10 (slot logic of `EAO.Model.State`: object trees, wrappers nested in wrappers)
+Core Lean only.  The statements about `setupTree` / `setupList` are proved by mutual structural recursion over the object tree.
 -/
 namespace EAO.State
 
@@ -21,181 +21,768 @@ theorem buildPlain_none_none (rd : Bool) (G : Grids) (st sp : Option Int) (f : O
     buildPlain rd G none st sp f w none = (G, none, .error .noGrid) := by
   cases rd <;> simp [buildPlain]
 
-theorem buildInner_eq (rd : Bool) (g : Nat) (G : Grids) (l : List (SubSt × Params)) :
-    ∃ G', buildInner rd g G l =
-      (G', l.map (fun sq => { sq.1 with grid := some g }), .ok (l.map fun sq => usedOf g sq.1.start sq.1.stop sq.2.freq sq.2.wacc)) := by
-  induction l generalizing G with
-  | nil => exact ⟨G, rfl⟩
-  | cons x rest ih =>
-    obtain ⟨G', h⟩ := ih (writeSlots G g x.1.start x.1.stop x.2.freq x.2.wacc)
-    refine ⟨G', ?_⟩
-    simp [buildInner, buildPlain_arg, h]
+/-! ### addresses -/
 
-def win (st : SubSt) : Option Int × Option Int := (st.start, st.stop)
-def pwin (q : Params) : Option Int × Option Int := (q.start, q.stop)
+theorem append_ne_self (ad p : List Nat) (h : p ≠ []) : ad ++ p ≠ ad := by
+  intro h'
+  exact h (List.append_right_eq_self.mp h')
 
-/-- the windows of wrapped assets are the ones they were constructed with -/
-def Inv (env : Env) (s : PyState) : Prop := ∀ a, (s.assets a).sub.map win = (env.asset a).subs.map pwin
+theorem isKid_kid (ad : Addr) (n i : Nat) : isKid ad n (ad ++ [i]) = decide (i < n) := by
+  simp [isKid]
 
-theorem zip_map_of_win {β} (H : Option Int → Option Int → Params → β) :
-    ∀ (subs : List SubSt) (inner : List Params), subs.map win = inner.map pwin →
-      (subs.zip inner).map (fun sq => H sq.1.start sq.1.stop sq.2) = inner.map (fun q => H q.start q.stop q)
-  | [], [], _ => rfl
-  | [], _ :: _, h => by simp at h
-  | _ :: _, [], h => by simp at h
-  | x :: xs, q :: qs, h => by
-    simp only [List.map_cons, List.cons.injEq] at h
-    have h1 := h.1
-    simp only [win, pwin, Prod.mk.injEq] at h1
-    simp [List.zip_cons_cons, List.map_cons, zip_map_of_win H xs qs h.2, h1.1, h1.2]
+theorem isKid_self (ad : Addr) (n : Nat) : isKid ad n ad = false := by
+  by_cases h : ad.dropLast = ad
+  · have hl := congrArg List.length h
+    simp only [List.length_dropLast] at hl
+    have h0 : ad = [] := by
+      cases ad with
+      | nil => rfl
+      | cons a t => simp at hl
+    subst h0
+    simp [isKid]
+  · simp [isKid, h]
 
-theorem restore_win {γ} (F : γ → SubSt) :
-    ∀ (l : List γ) (subs : List SubSt), l.length = subs.length →
-      (((l.map F).zip subs).map fun so => ({ so.1 with start := so.2.start, stop := so.2.stop } : SubSt)).map win = subs.map win
-  | [], [], _ => rfl
-  | [], _ :: _, h => by simp at h
-  | _ :: _, [], h => by simp at h
-  | x :: xs, s :: ss, h => by
-    simp only [List.length_cons, Nat.add_right_cancel_iff] at h
-    simp [List.zip_cons_cons, List.map_cons, restore_win F xs ss h, win]
+theorem isKid_deep (ad : Addr) (n i : Nat) (p : List Nat) (h : p ≠ []) : isKid ad n (ad ++ i :: p) = false := by
+  have h1 : (ad ++ i :: p).dropLast = ad ++ (i :: p).dropLast := List.dropLast_append_of_ne_nil (by simp)
+  have h2 : (i :: p).dropLast ≠ [] := by
+    cases p with
+    | nil => exact absurd rfl h
+    | cons a t => simp
+  have h3 : ad ++ (i :: p).dropLast ≠ ad := append_ne_self _ _ h2
+  simp [isKid, h1, h3]
 
-theorem length_of_win {subs : List SubSt} {inner : List Params} (h : subs.map win = inner.map pwin) :
-    subs.length = inner.length := by
-  have := congrArg List.length h
-  simpa using this
+theorem set_same (O : Objs) (ad : Addr) (o : ObjSt) : (O.set ad o) ad = o := by simp [Objs.set]
+theorem set_other (O : Objs) (ad d : Addr) (o : ObjSt) (h : d ≠ ad) : (O.set ad o) d = O d := by simp [Objs.set, h]
 
+theorem win_set_grid (O : Objs) (ad d : Addr) (o : ObjSt) (h : win o = win (O ad)) : win ((O.set ad o) d) = win (O d) := by
+  by_cases hd : d = ad
+  · subst hd; simp [Objs.set, h]
+  · simp [Objs.set, hd]
 
-theorem structuredBody_spec (rd : Bool) (G0 : Grids) (g : Nat) (p : Params) (inner : List Params) (sub : List SubSt)
-    (h : sub.map win = inner.map pwin) :
-    (structuredBody rd G0 g p inner sub).2.2 = .ok (pureAsset (.structured p inner) g)
-      ∧ (structuredBody rd G0 g p inner sub).2.1.map win = sub.map win := by
-  obtain ⟨G', hG⟩ := buildInner_eq rd g
-    (((sub.zip inner).map (fun sq =>
-        (({ grid := some g, start := clipStart sq.1.start p.start, stop := clipStop sq.1.stop p.stop } : SubSt), sq.2)))
-      |>.foldl (fun G sq => writeSlots G g sq.1.start sq.1.stop sq.2.freq sq.2.wacc) G0)
-    ((sub.zip inner).map (fun sq =>
-        (({ grid := some g, start := clipStart sq.1.start p.start, stop := clipStop sq.1.stop p.stop } : SubSt), sq.2)))
+theorem clipKids_nonkid (ad : Addr) (n : Nat) (s e : Option Int) (g : Nat) (O : Objs) (d : Addr) (h : isKid ad n d = false) :
+    clipKids ad n s e g O d = O d := by
+  simp [clipKids, h]
+
+/-- the restore step, in terms of the objects before the inner assets were clipped -/
+def restoreKidsO (ad : Addr) (n : Nat) (orig O : Objs) : Objs :=
+  fun a => if isKid ad n a then { O a with start := (orig a).start, stop := (orig a).stop } else O a
+
+theorem kidWins_length (ad : Addr) (n : Nat) (O : Objs) : (kidWins ad n O).length = n := by simp [kidWins]
+
+theorem isKid_true {ad : Addr} {n : Nat} {a : Addr} (h : isKid ad n a = true) :
+    ∃ i, i < n ∧ a = ad ++ [i] ∧ a.getLast? = some i := by
+  simp only [isKid, Bool.and_eq_true, beq_iff_eq] at h
+  obtain ⟨h1, h2⟩ := h
+  cases hl : a.getLast? with
+  | none => rw [hl] at h2; simp at h2
+  | some i =>
+    rw [hl] at h2
+    simp only [decide_eq_true_eq] at h2
+    refine ⟨i, h2, ?_, rfl⟩
+    have := List.dropLast_append_getLast? i (by simpa using hl)
+    rw [h1] at this
+    exact this.symm
+
+theorem restoreKids_kidWins (ad : Addr) (n : Nat) (orig O : Objs) :
+    restoreKids ad (kidWins ad n orig) O = restoreKidsO ad n orig O := by
+  funext a
+  simp only [restoreKids, restoreKidsO, kidWins_length]
+  cases hk : isKid ad n a with
+  | false => simp
+  | true =>
+    obtain ⟨i, hi, ha, hl⟩ := isKid_true hk
+    simp [hl, kidWins, hi, ← ha, win]
+
+theorem win_restoreKids (ad : Addr) (n : Nat) (orig O : Objs) (d : Addr) (h : isKid ad n d = false → win (O d) = win (orig d)) :
+    win (restoreKidsO ad n orig O d) = win (orig d) := by
+  unfold restoreKidsO
+  cases hk : isKid ad n d with
+  | true => simp [win]
+  | false => simpa using h hk
+
+theorem win_scaledClip_other (O : Objs) (ad d : Addr) (h : d ≠ ad ++ [0]) : scaledClip O ad d = O d := by
+  simp [scaledClip, Objs.set, h]
+
+theorem scaledFinish_win (p : Params) (ad : Addr) (O : Objs) (res : Grids × Objs × Result)
+    (h : ∀ d, win (res.2.1 d) = win (scaledClip O ad d)) (d : Addr) :
+    win ((scaledFinish p ad O res).2.1 d) = win (O d) := by
+  rcases res with ⟨G2, O2, r⟩
+  have h3 : ∀ d, win ((O2.set (ad ++ [0]) { O2 (ad ++ [0]) with start := (O (ad ++ [0])).start, stop := (O (ad ++ [0])).stop }) d) = win (O d) := by
+    intro d
+    by_cases hd : d = ad ++ [0]
+    · subst hd; simp [Objs.set, win]
+    · have := h d
+      rw [win_scaledClip_other O ad d hd] at this
+      simpa [Objs.set, hd] using this
+  cases r with
+  | error e => exact h3 d
+  | ok us =>
+    simp only [scaledFinish]
+    split
+    · exact h3 d
+    · by_cases hd : d = ad
+      · subst hd; simp [Objs.set, win]
+      · show win (Objs.set _ ad _ d) = win (O d)
+        rw [set_other _ _ _ _ hd]; exact h3 d
+
+theorem structuredFinish_win (linked : Bool) (ad : Addr) (n g : Nat) (s e : Option Int) (Oa : Objs) (res : Grids × Objs × Result)
+    (h : ∀ d, win (res.2.1 d) = win (clipKids ad n s e g Oa d)) (d : Addr) :
+    win ((structuredFinish linked ad g (kidWins ad n Oa) res).2.1 d) = win (Oa d) := by
+  rcases res with ⟨G2, O2, r⟩
+  have h3 : win (restoreKids ad (kidWins ad n Oa) O2 d) = win (Oa d) := by
+    rw [restoreKids_kidWins]
+    apply win_restoreKids
+    intro hk
+    rw [h d, clipKids_nonkid _ _ _ _ _ _ _ hk]
+  cases r with
+  | error e => exact h3
+  | ok us => exact h3
+
+theorem consRes_objs (us : List Used) (res : Grids × Objs × Result) : (consRes us res).2.1 = res.2.1 := by
+  rcases res with ⟨G, O, r⟩
+  cases r <;> rfl
+
+theorem consRes_grids (us : List Used) (res : Grids × Objs × Result) : (consRes us res).1 = res.1 := by
+  rcases res with ⟨G, O, r⟩
+  cases r <;> rfl
+
+mutual
+/-- no set-up changes the window of any object for good: whatever a wrapper clips it restores -/
+theorem setupTree_win (v : Version) : ∀ (x : Asset) (ad : Addr) (arg : Option Nat) (G : Grids) (O : Objs) (d : Addr),
+    win ((setupTree v x ad arg G O).2.1 d) = win (O d)
+  | .plain p, ad, arg, G, O, d => by
+    rw [setupTree]
+    rcases buildPlain v.rederive G (O ad).grid (O ad).start (O ad).stop p.freq p.wacc arg with ⟨G', ptr, r⟩
+    exact win_set_grid O ad d _ rfl
+  | .scaled p b, ad, arg, G, O, d => by
+    rw [setupTree]
+    exact scaledFinish_win p ad O _ (fun d => setupTree_win v b _ _ _ _ d) d
+  | .structured p linked inner, ad, arg, G, O, d => by
+    rw [setupTree]
+    split
+    · rfl
+    · rename_i g G0 _
+      rw [structuredFinish_win linked ad inner.length g (O ad).start (O ad).stop _ _ (fun d => setupList_win v inner _ _ _ _ _ d) d]
+      exact win_set_grid O ad d _ rfl
+theorem setupList_win (v : Version) : ∀ (xs : List Asset) (ad : Addr) (i g : Nat) (G : Grids) (O : Objs) (d : Addr),
+    win ((setupList v xs ad i g G O).2.1 d) = win (O d)
+  | [], ad, i, g, G, O, d => by simp [setupList]
+  | x :: xs, ad, i, g, G, O, d => by
+    rw [setupList]
+    have ih1 := setupTree_win v x (ad ++ [i]) (some g) G O
+    split
+    · rename_i G1 O1 e heq
+      rw [heq] at ih1
+      exact ih1 d
+    · rename_i G1 O1 us heq
+      rw [heq] at ih1
+      rw [consRes_objs, setupList_win v xs ad (i + 1) g G1 O1 d]
+      exact ih1 d
+end
+
+theorem scaledClip_grid (O : Objs) (ad d : Addr) : (scaledClip O ad d).grid = (O d).grid := by
+  by_cases hd : d = ad ++ [0]
+  · subst hd; simp [scaledClip, Objs.set]
+  · simp [scaledClip, Objs.set, hd]
+
+theorem scaledClip_root (O : Objs) (ad : Addr) : scaledClip O ad ad = O ad := by
+  have : ad ≠ ad ++ [0] := fun h => append_ne_self ad [0] (by simp) h.symm
+  simp [scaledClip, Objs.set, this]
+
+/-- a scaled asset whose base asset was set up on grid `g` -/
+theorem scaledFinish_ok (p : Params) (ad : Addr) (O : Objs) (G2 : Grids) (O2 : Objs) (us : List Used) (g : Nat)
+    (hroot : (O2 (ad ++ [0])).grid = some g) :
+    scaledFinish p ad O (G2, O2, .ok us) =
+      (writeSlots G2 g (O ad).start (O ad).stop p.freq p.wacc,
+       (O2.set (ad ++ [0]) { O2 (ad ++ [0]) with start := (O (ad ++ [0])).start, stop := (O (ad ++ [0])).stop }).set ad { O ad with grid := some g },
+       .ok (us ++ [usedOf g (O ad).start (O ad).stop p.freq p.wacc])) := by
+  simp [scaledFinish, hroot, readSlots_writeSlots]
+
+theorem scaledFinish_error (p : Params) (ad : Addr) (O : Objs) (G2 : Grids) (O2 : Objs) (e : Err) :
+    scaledFinish p ad O (G2, O2, .error e) =
+      (G2, O2.set (ad ++ [0]) { O2 (ad ++ [0]) with start := (O (ad ++ [0])).start, stop := (O (ad ++ [0])).stop }, .error e) := by
+  simp [scaledFinish]
+
+theorem structuredGrid_arg (p : Params) (g : Nat) (o : ObjSt) (G : Grids) :
+    structuredGrid p (some g) o G = some (g, writeSlots G g o.start o.stop p.freq p.wacc) := rfl
+
+theorem clipKids_grid (ad : Addr) (n : Nat) (s e : Option Int) (g : Nat) (O : Objs) (d : Addr) :
+    (clipKids ad n s e g O d).grid = (O d).grid ∨ (clipKids ad n s e g O d).grid = some g := by
+  unfold clipKids
+  cases isKid ad n d <;> simp
+
+theorem restoreKids_grid (ad : Addr) (n : Nat) (orig O : Objs) (d : Addr) : (restoreKidsO ad n orig O d).grid = (O d).grid := by
+  unfold restoreKidsO
+  cases isKid ad n d <;> simp
+
+theorem structuredFinish_ok (linked : Bool) (ad : Addr) (n g : Nat) (Oa : Objs) (G2 : Grids) (O2 : Objs) (us : List Used) :
+    structuredFinish linked ad g (kidWins ad n Oa) (G2, O2, .ok us) =
+      (G2, restoreKidsO ad n Oa O2, .ok (if (linked && n != 0) = true then us ++ [readSlots G2 g] else us)) := by
+  simp only [structuredFinish, restoreKids_kidWins, kidWins_length]
+
+/-- where the grid attributes point after a set-up with grid argument -/
+def GridsAfter (paths : List (List Nat)) (ad : Addr) (g : Nat) (O : Objs) (res : Grids × Objs × Result) : Prop :=
+  (∃ us, res.2.2 = .ok us) ∧ (∀ p ∈ paths, (res.2.1 (ad ++ p)).grid = some g)
+    ∧ (∀ d, (res.2.1 d).grid = (O d).grid ∨ (res.2.1 d).grid = some g)
+
+mutual
+/-- a set-up WITH grid argument succeeds (as far as the model's failure "no grid" goes), leaves every object of the tree on
+    that grid and every other pointer alone, in every code version -/
+theorem setupTree_grids (v : Version) : ∀ (x : Asset) (ad : Addr) (g : Nat) (G : Grids) (O : Objs),
+    GridsAfter x.paths ad g O (setupTree v x ad (some g) G O)
+  | .plain p, ad, g, G, O => by
+    rw [setupTree, buildPlain_arg]
+    refine ⟨⟨_, rfl⟩, ?_, ?_⟩
+    · intro q hq
+      simp only [Asset.paths, List.mem_singleton] at hq
+      subst hq
+      simp [Objs.set]
+    · intro d
+      by_cases hd : d = ad
+      · subst hd; simp [Objs.set]
+      · simp [Objs.set, hd]
+  | .scaled p b, ad, g, G, O => by
+    rw [setupTree]
+    have ih := setupTree_grids v b (ad ++ [0]) g G (scaledClip O ad)
+    simp only [scaledArg]
+    rcases hr : setupTree v b (ad ++ [0]) (some g) G (scaledClip O ad) with ⟨G2, O2, r⟩
+    rw [hr] at ih
+    obtain ⟨⟨us, hus⟩, hp, hm⟩ := ih
+    simp only at hus hp hm
+    subst hus
+    have hroot : (O2 (ad ++ [0])).grid = some g := by
+      have hmem : ([] : List Nat) ∈ b.paths := by cases b <;> simp [Asset.paths]
+      simpa using hp [] hmem
+    rw [scaledFinish_ok p ad O G2 O2 us g hroot]
+    have hother : ∀ d, d ≠ ad →
+        (((O2.set (ad ++ [0]) { O2 (ad ++ [0]) with start := (O (ad ++ [0])).start, stop := (O (ad ++ [0])).stop }).set ad { O ad with grid := some g }) d).grid
+          = (O2 d).grid := by
+      intro d hd
+      by_cases hd2 : d = ad ++ [0]
+      · subst hd2; simp [Objs.set]
+      · simp [Objs.set, hd, hd2]
+    refine ⟨⟨_, rfl⟩, ?_, ?_⟩
+    · intro q hq
+      simp only [Asset.paths, List.mem_cons, List.mem_map] at hq
+      rcases hq with hq | ⟨q', hq', rfl⟩
+      · subst hq; simp [Objs.set]
+      · show (Objs.set _ ad _ (ad ++ 0 :: q')).grid = some g
+        rw [hother _ (append_ne_self ad _ (by simp))]
+        have := hp q' hq'
+        simpa using this
+    · intro d
+      show (Objs.set _ ad _ d).grid = (O d).grid ∨ (Objs.set _ ad _ d).grid = some g
+      by_cases hd : d = ad
+      · subst hd; simp [Objs.set]
+      · rw [hother d hd]
+        have := hm d
+        rwa [scaledClip_grid] at this
+  | .structured p linked inner, ad, g, G, O => by
+    rw [setupTree, structuredGrid_arg]
+    simp only
+    have ih := setupList_grids v inner ad 0 g
+      (writeKids ad (O ad).start (O ad).stop g (O.set ad { O ad with grid := some g }) inner 0 (writeSlots G g (O ad).start (O ad).stop p.freq p.wacc))
+      (clipKids ad inner.length (O ad).start (O ad).stop g (O.set ad { O ad with grid := some g }))
+    rcases hr : setupList v inner ad 0 g
+      (writeKids ad (O ad).start (O ad).stop g (O.set ad { O ad with grid := some g }) inner 0 (writeSlots G g (O ad).start (O ad).stop p.freq p.wacc))
+      (clipKids ad inner.length (O ad).start (O ad).stop g (O.set ad { O ad with grid := some g })) with ⟨G2, O2, r⟩
+    rw [hr] at ih
+    obtain ⟨⟨us, hus⟩, hp, hm⟩ := ih
+    simp only at hus hp hm
+    subst hus
+    rw [structuredFinish_ok]
+    have hO1 : ∀ d, (clipKids ad inner.length (O ad).start (O ad).stop g (O.set ad { O ad with grid := some g }) d).grid = (O d).grid
+        ∨ (clipKids ad inner.length (O ad).start (O ad).stop g (O.set ad { O ad with grid := some g }) d).grid = some g := by
+      intro d
+      rcases clipKids_grid ad inner.length (O ad).start (O ad).stop g (O.set ad { O ad with grid := some g }) d with h | h
+      · by_cases hd : d = ad
+        · subst hd; right; rw [h]; simp [Objs.set]
+        · left; rw [h]; simp [Objs.set, hd]
+      · exact Or.inr h
+    refine ⟨⟨_, rfl⟩, ?_, ?_⟩
+    · intro q hq
+      simp only [Asset.paths, List.mem_cons] at hq
+      simp only [restoreKids_grid]
+      rcases hq with hq | hq
+      · subst hq
+        rcases hm (ad ++ []) with h | h
+        · rw [h]
+          simp [clipKids, isKid_self, Objs.set]
+        · exact h
+      · exact hp q hq
+    · intro d
+      simp only [restoreKids_grid]
+      rcases hm d with h | h
+      · rw [h]; exact hO1 d
+      · exact Or.inr h
+theorem setupList_grids (v : Version) : ∀ (xs : List Asset) (ad : Addr) (i g : Nat) (G : Grids) (O : Objs),
+    GridsAfter (pathsL xs i) ad g O (setupList v xs ad i g G O)
+  | [], ad, i, g, G, O => by
+    rw [setupList]
+    exact ⟨⟨_, rfl⟩, by simp [pathsL], fun d => Or.inl rfl⟩
+  | x :: xs, ad, i, g, G, O => by
+    rw [setupList]
+    have ih1 := setupTree_grids v x (ad ++ [i]) g G O
+    rcases hr : setupTree v x (ad ++ [i]) (some g) G O with ⟨G1, O1, r⟩
+    rw [hr] at ih1
+    obtain ⟨⟨us, hus⟩, hp1, hm1⟩ := ih1
+    simp only at hus hp1 hm1
+    subst hus
+    simp only
+    have ih2 := setupList_grids v xs ad (i + 1) g G1 O1
+    rcases hr2 : setupList v xs ad (i + 1) g G1 O1 with ⟨G2, O2, r2⟩
+    rw [hr2] at ih2
+    obtain ⟨⟨vs, hvs⟩, hp2, hm2⟩ := ih2
+    simp only at hvs hp2 hm2
+    subst hvs
+    refine ⟨⟨_, rfl⟩, ?_, ?_⟩
+    · intro q hq
+      simp only [pathsL, List.mem_append, List.mem_map] at hq
+      show (O2 (ad ++ q)).grid = some g
+      rcases hq with ⟨q', hq', rfl⟩ | hq
+      · rcases hm2 (ad ++ i :: q') with h | h
+        · rw [h]
+          have := hp1 q' hq'
+          simpa using this
+        · exact h
+      · exact hp2 q hq
+    · intro d
+      show (O2 d).grid = (O d).grid ∨ (O2 d).grid = some g
+      rcases hm2 d with h | h
+      · rw [h]; exact hm1 d
+      · exact Or.inr h
+end
+
+/-- the window the object at path `p` below `x` was constructed with -/
+def winAt (x : Asset) (p : List Nat) : Win :=
+  match x.sub? p with
+  | some y => pwin y.params
+  | none => (none, none)
+
+/-- every object strictly below the object `x` at address `ad` has the window it was constructed with -/
+def KidsInv (x : Asset) (ad : Addr) (O : Objs) : Prop := ∀ p, p ≠ [] → win (O (ad ++ p)) = winAt x p
+
+theorem winAt_scaled (p : Params) (b : Asset) (q : List Nat) : winAt (.scaled p b) (0 :: q) = winAt b q := by
+  simp [winAt, Asset.sub?, Asset.subs]
+
+theorem winAt_structured (p : Params) (l : Bool) (inner : List Asset) (i : Nat) (c : Asset) (q : List Nat) (h : inner[i]? = some c) :
+    winAt (.structured p l inner) (i :: q) = winAt c q := by
+  simp [winAt, Asset.sub?, Asset.subs, h]
+
+theorem winAt_nil (x : Asset) : winAt x [] = pwin x.params := by
+  simp [winAt, Asset.sub?]
+
+theorem KidsInv_congr (x : Asset) (ad : Addr) (O O' : Objs) (h : ∀ d, win (O' d) = win (O d)) (hk : KidsInv x ad O) : KidsInv x ad O' :=
+  fun p hp => (h _).trans (hk p hp)
+
+theorem win_eq {o : ObjSt} {a b : Option Int} (h : win o = (a, b)) : o.start = a ∧ o.stop = b := by
+  simp only [win, Prod.mk.injEq] at h
+  exact h
+
+theorem win_eq_pwin {o : ObjSt} {q : Params} (h : win o = pwin q) : o.start = q.start ∧ o.stop = q.stop := win_eq h
+
+theorem KidsInv_scaled (p : Params) (b : Asset) (ad : Addr) (O : Objs) (hk : KidsInv (.scaled p b) ad O) :
+    KidsInv b (ad ++ [0]) (scaledClip O ad)
+      ∧ (scaledClip O ad (ad ++ [0])).start = clipStart b.params.start (O ad).start
+      ∧ (scaledClip O ad (ad ++ [0])).stop = clipStop b.params.stop (O ad).stop := by
+  refine ⟨?_, ?_, ?_⟩
+  · intro q hq
+    rw [win_scaledClip_other O ad _ (append_ne_self _ q hq)]
+    have := hk (0 :: q) (by simp)
+    rw [winAt_scaled] at this
+    simpa using this
+  · have h0 := hk [0] (by simp)
+    rw [winAt_scaled, winAt_nil] at h0
+    simp [scaledClip, Objs.set, (win_eq_pwin h0).1]
+  · have h0 := hk [0] (by simp)
+    rw [winAt_scaled, winAt_nil] at h0
+    simp [scaledClip, Objs.set, (win_eq_pwin h0).2]
+
+theorem lastWriteL_indep (g : Nat) (xs : List Asset) (s e : Option Int) (d d' : Used) (h : xs ≠ []) :
+    lastWriteL g xs s e d = lastWriteL g xs s e d' := by
+  cases xs with
+  | nil => exact absurd rfl h
+  | cons c cs => simp [lastWriteL]
+
+theorem lastWriteL_writeKids (g : Nat) (xs : List Asset) (s e : Option Int) (ad : Addr) (Oa : Objs) (i : Nat) (G0 : Grids) :
+    lastWriteL g xs s e (readSlots (writeKids ad s e g Oa xs i G0) g) = lastWriteL g xs s e (readSlots G0 g) := by
+  cases xs with
+  | nil => simp [writeKids]
+  | cons c cs => exact lastWriteL_indep g _ s e _ _ (by simp)
+
+/-- hypotheses of the inner loop: the `j`-th asset of the list sits at `ad ++ [i + j]` with its window clipped by `s e`, everything below it untouched -/
+def ListInv (xs : List Asset) (ad : Addr) (i : Nat) (s e : Option Int) (O : Objs) : Prop :=
+  ∀ j c, xs[j]? = some c →
+    win (O (ad ++ [i + j])) = (clipStart c.params.start s, clipStop c.params.stop e) ∧ KidsInv c (ad ++ [i + j]) O
+
+theorem ListInv_tail (x : Asset) (xs : List Asset) (ad : Addr) (i : Nat) (s e : Option Int) (O O' : Objs)
+    (h : ∀ d, win (O' d) = win (O d)) (hl : ListInv (x :: xs) ad i s e O) : ListInv xs ad (i + 1) s e O' := by
+  intro j c hc
+  have := hl (j + 1) c (by simpa using hc)
+  have e1 : i + (j + 1) = i + 1 + j := by omega
+  rw [e1] at this
+  exact ⟨(h _).trans this.1, KidsInv_congr c _ O O' h this.2⟩
+
+theorem ListInv_structured (p : Params) (l : Bool) (inner : List Asset) (ad : Addr) (g : Nat) (O : Objs)
+    (hk : KidsInv (.structured p l inner) ad O) :
+    ListInv inner ad 0 (O ad).start (O ad).stop
+      (clipKids ad inner.length (O ad).start (O ad).stop g (O.set ad { O ad with grid := some g })) := by
+  intro j c hc
+  have hj : j < inner.length := by
+    rcases Nat.lt_or_ge j inner.length with h | h
+    · exact h
+    · rw [List.getElem?_eq_none h] at hc; cases hc
+  have hne : ad ++ [j] ≠ ad := append_ne_self ad [j] (by simp)
   refine ⟨?_, ?_⟩
-  · simp only [structuredBody, hG, pureAsset, List.map_map]
-    exact congrArg Except.ok
-      (zip_map_of_win (fun st sp q => usedOf g (clipStart st p.start) (clipStop sp p.stop) q.freq q.wacc) _ _ h)
-  · simp only [structuredBody, hG]
-    exact restore_win _ _ _ (by simp [length_of_win h])
+  · have h0 := hk [j] (by simp)
+    rw [winAt_structured p l inner j c [] hc, winAt_nil] at h0
+    have hw := win_eq_pwin h0
+    simp [clipKids, isKid_kid, hj, Objs.set, hne, win, hw.1, hw.2]
+  · intro q hq
+    have hne2 : ad ++ j :: q ≠ ad := append_ne_self ad _ (by simp)
+    have := hk (j :: q) (by simp)
+    rw [winAt_structured p l inner j c q hc] at this
+    simp only [Nat.zero_add, List.append_assoc, List.singleton_append]
+    rw [clipKids_nonkid _ _ _ _ _ _ _ (isKid_deep ad _ j q hq), set_other _ _ _ _ hne2]
+    exact this
 
-theorem structuredBody_eq (rd : Bool) (G0 : Grids) (g : Nat) (p : Params) (inner : List Params) (sub : List SubSt)
-    (h : sub.map win = inner.map pwin) :
-    ∃ G' sub', structuredBody rd G0 g p inner sub = (G', sub', .ok (pureAsset (.structured p inner) g))
-      ∧ sub'.map win = sub.map win := by
-  have hs := structuredBody_spec rd G0 g p inner sub h
-  rcases hb : structuredBody rd G0 g p inner sub with ⟨G2, sub', r⟩
-  rw [hb] at hs
-  exact ⟨G2, sub', by rw [← hs.1], hs.2⟩
+mutual
+/-- a set-up WITH grid argument: every builder of the tree reads its own data (clipped by the wrappers above it), whatever was
+    set up before and whatever the grid objects held; and what the slots of the grid hold afterwards -/
+theorem setupTree_arg (v : Version) : ∀ (x : Asset) (ad : Addr) (g : Nat) (G : Grids) (O : Objs), KidsInv x ad O →
+    (setupTree v x ad (some g) G O).2.2 = .ok (pureAt g x (O ad).start (O ad).stop)
+      ∧ readSlots (setupTree v x ad (some g) G O).1 g = lastWrite g x (O ad).start (O ad).stop
+  | .plain p, ad, g, G, O, _ => by
+    rw [setupTree, buildPlain_arg]
+    simp [pureAt, lastWrite, readSlots_writeSlots, Except.map]
+  | .scaled p b, ad, g, G, O, hk => by
+    obtain ⟨hkb, hs, he⟩ := KidsInv_scaled p b ad O hk
+    have ih := setupTree_arg v b (ad ++ [0]) g G (scaledClip O ad) hkb
+    have hg := setupTree_grids v b (ad ++ [0]) g G (scaledClip O ad)
+    rw [setupTree]
+    simp only [scaledArg]
+    rcases hr : setupTree v b (ad ++ [0]) (some g) G (scaledClip O ad) with ⟨G2, O2, r⟩
+    rw [hr] at ih hg
+    simp only at ih
+    have hroot : (O2 (ad ++ [0])).grid = some g := by
+      have hmem : ([] : List Nat) ∈ b.paths := by cases b <;> simp [Asset.paths]
+      simpa using hg.2.1 [] hmem
+    rw [ih.1, scaledFinish_ok p ad O G2 O2 _ g hroot, hs, he]
+    simp [pureAt, lastWrite, readSlots_writeSlots]
+  | .structured p linked inner, ad, g, G, O, hk => by
+    have hl := ListInv_structured p linked inner ad g O hk
+    have ih := setupList_arg v inner ad 0 g
+      (writeKids ad (O ad).start (O ad).stop g (O.set ad { O ad with grid := some g }) inner 0 (writeSlots G g (O ad).start (O ad).stop p.freq p.wacc))
+      _ (O ad).start (O ad).stop hl
+    rw [setupTree, structuredGrid_arg]
+    simp only
+    rcases hr : setupList v inner ad 0 g
+      (writeKids ad (O ad).start (O ad).stop g (O.set ad { O ad with grid := some g }) inner 0 (writeSlots G g (O ad).start (O ad).stop p.freq p.wacc))
+      (clipKids ad inner.length (O ad).start (O ad).stop g (O.set ad { O ad with grid := some g })) with ⟨G2, O2, r⟩
+    rw [hr] at ih
+    simp only at ih
+    rw [ih.1, structuredFinish_ok]
+    have hlw : readSlots G2 g = lastWriteL g inner (O ad).start (O ad).stop (usedOf g (O ad).start (O ad).stop p.freq p.wacc) := by
+      rw [ih.2, lastWriteL_writeKids, readSlots_writeSlots]
+    refine ⟨?_, ?_⟩
+    · simp only [pureAt, hlw]
+    · simp only [lastWrite, hlw]
+theorem setupList_arg (v : Version) : ∀ (xs : List Asset) (ad : Addr) (i g : Nat) (G : Grids) (O : Objs) (s e : Option Int),
+    ListInv xs ad i s e O →
+    (setupList v xs ad i g G O).2.2 = .ok (pureList g xs s e)
+      ∧ readSlots (setupList v xs ad i g G O).1 g = lastWriteL g xs s e (readSlots G g)
+  | [], ad, i, g, G, O, s, e, _ => by
+    rw [setupList]
+    simp [pureList, lastWriteL]
+  | x :: xs, ad, i, g, G, O, s, e, hl => by
+    have h0 := hl 0 x (by simp)
+    simp only [Nat.add_zero] at h0
+    have hw := win_eq h0.1
+    have ih1 := setupTree_arg v x (ad ++ [i]) g G O h0.2
+    have hwin := setupTree_win v x (ad ++ [i]) (some g) G O
+    rw [setupList]
+    rcases hr : setupTree v x (ad ++ [i]) (some g) G O with ⟨G1, O1, r⟩
+    rw [hr] at ih1 hwin
+    simp only at ih1 hwin
+    rw [hw.1, hw.2] at ih1
+    obtain ⟨ih1a, ih1b⟩ := ih1
+    subst ih1a
+    simp only
+    have ih2 := setupList_arg v xs ad (i + 1) g G1 O1 s e (ListInv_tail x xs ad i s e O O1 hwin hl)
+    rcases hr2 : setupList v xs ad (i + 1) g G1 O1 with ⟨G2, O2, r2⟩
+    rw [hr2] at ih2
+    simp only at ih2
+    obtain ⟨ih2a, ih2b⟩ := ih2
+    subst ih2a
+    simp only [consRes, pureList, lastWriteL]
+    rw [ih2b, ih1b]
+    exact ⟨trivial, rfl⟩
+end
 
-/-- the state after `setupAsset` differs from `s` in the grid objects and in asset `a` only -/
-theorem inv_upd {env : Env} {s : PyState} (hI : Inv env s) (a : Nat) (G : Grids) (st' : AssetSt)
-    (h : st'.sub.map win = (env.asset a).subs.map pwin) :
-    Inv env { s with grids := G, assets := fun i => if i = a then st' else s.assets i } := by
-  intro i
-  by_cases hi : i = a
-  · subst hi; simpa using h
-  · simpa [hi] using hI i
+theorem nil_mem_paths (x : Asset) : ([] : List Nat) ∈ x.paths := by cases x <;> simp [Asset.paths]
 
-theorem scaled_sub {env : Env} {s : PyState} (hI : Inv env s) {a : Nat} {p base : Params}
-    (h : env.asset a = .scaled p base) :
-    ∃ x, (s.assets a).sub = [x] ∧ x.start = base.start ∧ x.stop = base.stop := by
-  have hIa := hI a
-  rw [h] at hIa
-  simp only [Asset.subs, List.map_cons, List.map_nil] at hIa
-  match hs : (s.assets a).sub, hIa with
-  | [x], h' =>
-    simp only [List.map_cons, List.map_nil, List.cons.injEq, and_true, win, pwin, Prod.mk.injEq] at h'
-    exact ⟨x, rfl, h'.1, h'.2⟩
-  | [], h' => simp at h'
-  | _ :: _ :: _, h' => simp at h'
+theorem scaledArg_current_none (ptr : Option Nat) : scaledArg current none ptr = ptr := rfl
 
-/-- every set-up keeps the windows of wrapped assets (the structured asset restores them) -/
-theorem setupAsset_inv (v : Version) (env : Env) (s : PyState) (a : Nat) (arg : Option Nat) (hI : Inv env s) :
-    Inv env (setupAsset v env s a arg).1 := by
-  cases h : env.asset a with
-  | plain p =>
-    simp only [setupAsset, h]
-    exact inv_upd hI a _ _ (by simpa using hI a)
-  | scaled p base =>
-    obtain ⟨x, hx, hx1, hx2⟩ := scaled_sub hI h
-    simp only [setupAsset, h, hx, List.headD_cons]
-    rcases hbp : buildPlain v.rederive s.grids x.grid (clipStart x.start p.start) (clipStop x.stop p.stop) base.freq base.wacc
-        (match arg with | some g => some g | none => if v.scaledOwnGrid = true then (s.assets a).grid else none) with ⟨G, bptr, r⟩
+theorem scaledClip_grids (O : Objs) (ad : Addr) : (fun d => (scaledClip O ad d).grid) = fun d => (O d).grid :=
+  funext fun d => scaledClip_grid O ad d
+
+/-- a set-up WITHOUT grid argument (current code): every builder of the tree reads its own data on the grid the object itself was
+    put on (a scaled asset that never saw a grid: the grid of its base asset); "no grid" if there is none -/
+theorem setupTree_noarg : ∀ (x : Asset) (ad : Addr) (G : Grids) (O : Objs), KidsInv x ad O →
+    (setupTree current x ad none G O).2.2 =
+        (match ownGrid (fun d => (O d).grid) x ad with
+         | some g => .ok (pureAt g x (O ad).start (O ad).stop)
+         | none => .error .noGrid)
+      ∧ ∀ g, ownGrid (fun d => (O d).grid) x ad = some g → ((setupTree current x ad none G O).2.1 ad).grid = some g
+  | .plain p, ad, G, O, _ => by
+    rw [setupTree]
+    cases hg : (O ad).grid with
+    | none => simp [current, buildPlain_none_none, ownGrid, hg, Except.map, Objs.set]
+    | some g => simp [current, buildPlain_rederive_some, ownGrid, hg, Except.map, pureAt, Objs.set]
+  | .scaled p b, ad, G, O, hk => by
+    obtain ⟨hkb, hs, he⟩ := KidsInv_scaled p b ad O hk
+    rw [setupTree]
+    cases hg : (O ad).grid with
+    | some g =>
+      have ih := setupTree_arg current b (ad ++ [0]) g G (scaledClip O ad) hkb
+      have hgr := setupTree_grids current b (ad ++ [0]) g G (scaledClip O ad)
+      rw [scaledArg_current_none]
+      rcases hr : setupTree current b (ad ++ [0]) (some g) G (scaledClip O ad) with ⟨G2, O2, r⟩
+      rw [hr] at ih hgr
+      simp only at ih
+      have hroot : (O2 (ad ++ [0])).grid = some g := by simpa using hgr.2.1 [] (nil_mem_paths b)
+      rw [ih.1, scaledFinish_ok p ad O G2 O2 _ g hroot, hs, he]
+      simp [ownGrid, hg, pureAt, Objs.set]
+    | none =>
+      have ih := setupTree_noarg b (ad ++ [0]) G (scaledClip O ad) hkb
+      rw [scaledClip_grids] at ih
+      rw [scaledArg_current_none]
+      rcases hr : setupTree current b (ad ++ [0]) none G (scaledClip O ad) with ⟨G2, O2, r⟩
+      rw [hr] at ih
+      simp only at ih
+      obtain ⟨ih1, ih2⟩ := ih
+      cases hb : ownGrid (fun d => (O d).grid) b (ad ++ [0]) with
+      | none =>
+        rw [hb] at ih1
+        simp only at ih1
+        subst ih1
+        rw [scaledFinish_error]
+        simp [ownGrid, hg, hb]
+      | some g' =>
+        rw [hb] at ih1
+        simp only at ih1
+        subst ih1
+        have hroot : (O2 (ad ++ [0])).grid = some g' := ih2 g' hb
+        rw [scaledFinish_ok p ad O G2 O2 _ g' hroot, hs, he]
+        simp [ownGrid, hg, hb, pureAt, Objs.set]
+  | .structured p linked inner, ad, G, O, hk => by
+    rw [setupTree]
+    cases hg : (O ad).grid with
+    | none => simp [structuredGrid, hg, ownGrid]
+    | some g =>
+      have hl := ListInv_structured p linked inner ad g O hk
+      have ih := setupList_arg current inner ad 0 g
+        (writeKids ad (O ad).start (O ad).stop g (O.set ad { O ad with grid := some g }) inner 0 G)
+        _ (O ad).start (O ad).stop hl
+      have hgr := setupList_grids current inner ad 0 g
+        (writeKids ad (O ad).start (O ad).stop g (O.set ad { O ad with grid := some g }) inner 0 G)
+        (clipKids ad inner.length (O ad).start (O ad).stop g (O.set ad { O ad with grid := some g }))
+      simp only [structuredGrid, hg]
+      rcases hr : setupList current inner ad 0 g
+        (writeKids ad (O ad).start (O ad).stop g (O.set ad { O ad with grid := some g }) inner 0 G)
+        (clipKids ad inner.length (O ad).start (O ad).stop g (O.set ad { O ad with grid := some g })) with ⟨G2, O2, r⟩
+      rw [hr] at ih hgr
+      simp only at ih
+      rw [ih.1, structuredFinish_ok]
+      refine ⟨?_, ?_⟩
+      · simp only [ownGrid, hg, pureAt]
+        cases hc : (linked && inner.length != 0) with
+        | false => simp
+        | true =>
+          have hne : inner ≠ [] := by
+            intro h0
+            simp [h0] at hc
+          simp only [if_true]
+          rw [ih.2, lastWriteL_writeKids, lastWriteL_indep g inner _ _ _ (usedOf g (O ad).start (O ad).stop p.freq p.wacc) hne]
+      · intro g' hg'
+        simp only [ownGrid, hg, Option.some.injEq] at hg'
+        subst hg'
+        simp only [restoreKids_grid]
+        rcases hgr.2.2 ad with h | h
+        · rw [h]; simp [clipKids, isKid_self, Objs.set]
+        · exact h
+
+/-- the windows of all objects are the ones they were constructed with -/
+def Inv (env : Env) (s : PyState) : Prop := ∀ d, win (s.objs d) = iwin env d
+
+theorem inv_init (env : Env) : Inv env (init env) := by
+  intro d
+  simp [init, win]
+
+theorem sub?_append : ∀ (r : List Nat) (y : Asset) (q : List Nat), y.sub? (r ++ q) = (y.sub? r).bind (fun z => z.sub? q)
+  | [], y, q => by simp [Asset.sub?]
+  | i :: r, y, q => by
+    simp only [List.cons_append, Asset.sub?]
+    cases y.subs[i]? with
+    | none => rfl
+    | some c => exact sub?_append r c q
+
+theorem at_ne_nil {env : Env} {ad : Addr} {x : Asset} (h : env.at ad = some x) : ad ≠ [] := by
+  intro h0
+  subst h0
+  simp [Env.at] at h
+
+theorem at_top (env : Env) (a : Nat) : env.at [a] = some (env.asset a) := by
+  simp [Env.at, Asset.sub?]
+
+theorem kidsInv_of_inv {env : Env} {s : PyState} (hI : Inv env s) {ad : Addr} {x : Asset} (h : env.at ad = some x) :
+    KidsInv x ad s.objs ∧ (s.objs ad).start = x.params.start ∧ (s.objs ad).stop = x.params.stop := by
+  cases ad with
+  | nil => exact absurd rfl (at_ne_nil h)
+  | cons a r =>
+    simp only [Env.at] at h
+    refine ⟨?_, ?_⟩
+    · intro q _
+      rw [hI]
+      simp only [iwin, List.cons_append, Env.at, sub?_append, h, winAt]
+      rfl
+    · have := hI (a :: r)
+      simp only [iwin, Env.at, h] at this
+      exact win_eq_pwin this
+
+/-! ### every operation keeps the windows -/
+
+theorem setupAt_win (v : Version) (env : Env) (s : PyState) (ad : Addr) (arg : Option Nat) (d : Addr) :
+    win ((setupAt v env s ad arg).1.objs d) = win (s.objs d) := by
+  unfold setupAt
+  cases h : env.at ad with
+  | none => rfl
+  | some x =>
+    simp only
+    have := setupTree_win v x ad arg s.grids s.objs d
+    rcases hr : setupTree v x ad arg s.grids s.objs with ⟨G, O, r⟩
+    rw [hr] at this
+    exact this
+
+theorem setupAll_win (v : Version) (env : Env) (g : Nat) : ∀ (l : List Nat) (s : PyState) (d : Addr),
+    win ((setupAll v env g s l).1.objs d) = win (s.objs d)
+  | [], s, d => rfl
+  | a :: rest, s, d => by
+    rw [setupAll]
+    have h1 := setupAt_win v env s [a] (some g) d
+    rcases hr : setupAt v env s [a] (some g) with ⟨s1, r⟩
+    rw [hr] at h1
     cases r with
-    | error e => exact inv_upd hI a _ _ (by simp [h, Asset.subs, win, pwin, hx1, hx2])
-    | ok u =>
-      cases bptr with
-      | none => exact inv_upd hI a _ _ (by simp [h, Asset.subs, win, pwin, hx1, hx2])
-      | some g => exact inv_upd hI a _ _ (by simp [h, Asset.subs, win, pwin, hx1, hx2])
-  | structured p inner =>
-    have hIa := hI a
-    rw [h] at hIa
-    simp only [Asset.subs] at hIa
-    simp only [setupAsset, h]
-    cases arg with
-    | none =>
-      cases hg : (s.assets a).grid with
-      | none => exact hI
-      | some g =>
-        obtain ⟨G', sub', he, hw⟩ := structuredBody_eq v.rederive s.grids g p inner _ hIa
-        simp only [he]
-        exact inv_upd hI a _ _ (by simpa [h, Asset.subs, hw] using hIa)
-    | some g =>
-      obtain ⟨G', sub', he, hw⟩ := structuredBody_eq v.rederive (writeSlots s.grids g p.start p.stop p.freq p.wacc) g p inner _ hIa
-      simp only [he]
-      exact inv_upd hI a _ _ (by simpa [h, Asset.subs, hw] using hIa)
+    | error e => exact h1
+    | ok us =>
+      simp only
+      have h2 := setupAll_win v env g rest s1 d
+      rcases hr2 : setupAll v env g s1 rest with ⟨s2, r2⟩
+      rw [hr2] at h2
+      cases r2 with
+      | error e => exact h2.trans h1
+      | ok vs => exact h2.trans h1
 
-/-- a set-up WITH grid argument reads the asset's own data, whatever was set up before (every code version) -/
-theorem setupAsset_arg (v : Version) (env : Env) (s : PyState) (a g : Nat) (hI : Inv env s) :
-    (setupAsset v env s a (some g)).2 = .ok (pureAsset (env.asset a) g) := by
-  cases h : env.asset a with
-  | plain p => simp [setupAsset, h, buildPlain_arg, pureAsset, Except.map]
-  | scaled p base =>
-    obtain ⟨x, hx, hx1, hx2⟩ := scaled_sub hI h
-    simp [setupAsset, h, hx, buildPlain_arg, pureAsset, readSlots_writeSlots, hx1, hx2]
-  | structured p inner =>
-    have hIa := hI a
-    rw [h] at hIa
-    simp only [Asset.subs] at hIa
-    obtain ⟨G', sub', he, _⟩ := structuredBody_eq v.rederive (writeSlots s.grids g p.start p.stop p.freq p.wacc) g p inner _ hIa
-    simp only [setupAsset, h, he]
+theorem setupPortfolioSt_win (v : Version) (env : Env) (s : PyState) (arg : Option Nat) (d : Addr) :
+    win ((setupPortfolioSt v env s arg).1.objs d) = win (s.objs d) := by
+  unfold setupPortfolioSt
+  cases arg with
+  | some g => exact setupAll_win v env g _ { s with pf := some g } d
+  | none =>
+    cases hp : s.pf with
+    | none => simp [hp]
+    | some g => simp only [hp]; exact setupAll_win v env g _ s d
 
-/-- a set-up WITHOUT grid argument (current code) reads the asset's own data on the grid the asset itself was put on
-    (a scaled asset that never saw a grid: the grid of its base asset) -/
-theorem setupAsset_noarg (env : Env) (s : PyState) (a : Nat) (hI : Inv env s) :
-    (setupAsset current env s a none).2 =
-      match ownGrid env (ownPtrs s) a with
-      | some g => .ok (pureAsset (env.asset a) g)
-      | none => .error .noGrid := by
-  cases h : env.asset a with
-  | plain p =>
-    cases hg : (s.assets a).grid with
-    | none => simp [setupAsset, current, h, hg, buildPlain_none_none, Except.map, ownGrid, ownPtrs]
-    | some g => simp [setupAsset, current, h, hg, buildPlain_rederive_some, pureAsset, Except.map, ownGrid, ownPtrs]
-  | scaled p base =>
-    obtain ⟨x, hx, hx1, hx2⟩ := scaled_sub hI h
-    cases hg : (s.assets a).grid with
-    | some g =>
-      simp [setupAsset, current, h, hx, hg, buildPlain_arg, pureAsset, readSlots_writeSlots, hx1, hx2, ownGrid, ownPtrs]
-    | none =>
-      cases hb : x.grid with
-      | none => simp [setupAsset, current, h, hx, hg, hb, buildPlain_none_none, ownGrid, ownPtrs]
-      | some g =>
-        simp [setupAsset, current, h, hx, hg, hb, buildPlain_rederive_some, pureAsset, readSlots_writeSlots, hx1, hx2,
-          ownGrid, ownPtrs]
-  | structured p inner =>
-    have hIa := hI a
-    rw [h] at hIa
-    simp only [Asset.subs] at hIa
-    cases hg : (s.assets a).grid with
-    | none => simp [setupAsset, h, hg, ownGrid, ownPtrs]
-    | some g =>
-      obtain ⟨G', sub', he, _⟩ := structuredBody_eq true s.grids g p inner _ hIa
-      simp only [setupAsset, current, h, hg, he, ownGrid, ownPtrs]
+theorem setupIntervals_win (v : Version) (env : Env) : ∀ (tmp : List Nat) (s : PyState) (d : Addr),
+    win ((setupIntervals v env s tmp).1.objs d) = win (s.objs d)
+  | [], s, d => rfl
+  | t :: ts, s, d => by
+    rw [setupIntervals]
+    have h1 := setupAll_win v env t (List.range env.length) { s with pf := some t } d
+    rcases hr : setupAll v env t { s with pf := some t } (List.range env.length) with ⟨s1, r⟩
+    rw [hr] at h1
+    cases r with
+    | error e => exact h1
+    | ok us =>
+      simp only
+      have h2 := setupIntervals_win v env ts s1 d
+      rcases hr2 : setupIntervals v env s1 ts with ⟨s2, r2⟩
+      rw [hr2] at h2
+      cases r2 with
+      | error e => exact h2.trans h1
+      | ok vs => exact h2.trans h1
+
+theorem setTimegridSt_win (env : Env) (s : PyState) (ad : Addr) (g : Nat) (d : Addr) :
+    win ((setTimegridSt env s ad g).objs d) = win (s.objs d) := by
+  unfold setTimegridSt
+  cases env.at ad with
+  | none => rfl
+  | some x => exact win_set_grid s.objs ad d _ rfl
+
+theorem restoreTop_win (env : Env) (g : Nat) : ∀ (l : List Nat) (s : PyState) (d : Addr),
+    win ((restoreTop env g s l).objs d) = win (s.objs d)
+  | [], _, _ => rfl
+  | a :: rest, s, d => (restoreTop_win env g rest _ d).trans (setTimegridSt_win env s [a] g d)
+
+theorem setupSt_win (v : Version) (env : Env) (s : PyState) (c : Call) (d : Addr) :
+    win ((setupSt v env s c).1.objs d) = win (s.objs d) := by
+  cases c with
+  | setTimegrid ad g => exact setTimegridSt_win env s ad g d
+  | setup ad arg => exact setupAt_win v env s ad arg d
+  | setupPortfolio arg => exact setupPortfolioSt_win v env s arg d
+  | setupSplit g tmp =>
+    simp only [setupSt]
+    have h := setupIntervals_win v env tmp s d
+    rcases hr : setupIntervals v env s tmp with ⟨s1, r⟩
+    rw [hr] at h
+    exact (restoreTop_win env g _ { s1 with pf := some g } d).trans h
+  | dcf a => rfl
+  | fillLevel a =>
+    simp only [setupSt]
+    cases (s.objs [a]).grid <;> rfl
+  | makeSlp g t =>
+    exact setupPortfolioSt_win v env { s with grids := writeRestricted (writeRestricted s.grids g (some t, none, none)) g (none, some t, none) } (some g) d
+
+theorem setupSt_inv (v : Version) (env : Env) (s : PyState) (c : Call) (hI : Inv env s) : Inv env (setupSt v env s c).1 :=
+  fun d => (setupSt_win v env s c d).trans (hI d)
+
+theorem run_inv (v : Version) (env : Env) : ∀ (calls : List Call) (s : PyState), Inv env s → Inv env (run v env s calls)
+  | [], _, hI => hI
+  | c :: cs, s, hI => run_inv v env cs _ (setupSt_inv v env s c hI)
+
+/-! ### what the builders read -/
+
+/-- a set-up WITH grid argument reads the object's own data, whatever was set up before (every code version) -/
+theorem setupAt_arg (v : Version) (env : Env) (s : PyState) (ad : Addr) (g : Nat) (hI : Inv env s) :
+    (setupAt v env s ad (some g)).2 = match env.at ad with
+      | some x => .ok (pureAsset x g)
+      | none => .ok [] := by
+  unfold setupAt
+  cases h : env.at ad with
+  | none => rfl
+  | some x =>
+    obtain ⟨hk, hs, he⟩ := kidsInv_of_inv hI h
+    have := (setupTree_arg v x ad g s.grids s.objs hk).1
+    simp only
+    rw [this, hs, he]
+    rfl
+
+/-- a set-up WITHOUT grid argument (current code) reads the object's own data on the grid the object itself was put on -/
+theorem setupAt_noarg (env : Env) (s : PyState) (ad : Addr) (hI : Inv env s) :
+    (setupAt current env s ad none).2 = match env.at ad with
+      | some x => (match ownGrid (ownPtrs s).obj x ad with
+        | some g => .ok (pureAsset x g)
+        | none => .error .noGrid)
+      | none => .ok [] := by
+  unfold setupAt
+  cases h : env.at ad with
+  | none => rfl
+  | some x =>
+    obtain ⟨hk, hs, he⟩ := kidsInv_of_inv hI h
+    have := (setupTree_noarg x ad s.grids s.objs hk).1
+    simp only
+    rw [this, hs, he]
+    rfl
 
 /-- the portfolio loop: every asset reads its own data; `Inv` is kept -/
 theorem setupAll_eq (v : Version) (env : Env) (g : Nat) :
@@ -203,9 +790,10 @@ theorem setupAll_eq (v : Version) (env : Env) (g : Nat) :
       (setupAll v env g s l).2 = .ok (l.flatMap fun a => pureAsset (env.asset a) g) ∧ Inv env (setupAll v env g s l).1
   | [], s, hI => ⟨rfl, hI⟩
   | a :: rest, s, hI => by
-    have h1 := setupAsset_arg v env s a g hI
-    have h2 := setupAsset_inv v env s a (some g) hI
-    rcases hsa : setupAsset v env s a (some g) with ⟨s1, r1⟩
+    have h1 := setupAt_arg v env s [a] g hI
+    rw [at_top] at h1
+    have h2 : Inv env (setupAt v env s [a] (some g)).1 := fun d => (setupAt_win v env s [a] (some g) d).trans (hI d)
+    rcases hsa : setupAt v env s [a] (some g) with ⟨s1, r1⟩
     rw [hsa] at h1 h2
     simp only at h1 h2
     subst h1
@@ -252,210 +840,73 @@ theorem setupIntervals_eq (v : Version) (env : Env) :
     subst ih1
     simp [setupIntervals, hsa, hsr, ih2]
 
-theorem setTimegridSt_inv (env : Env) (s : PyState) (a g : Nat) (hI : Inv env s) : Inv env (setTimegridSt env s a g) := by
-  intro i
-  by_cases hi : i = a
-  · subst hi; simpa [setTimegridSt] using hI i
-  · simpa [setTimegridSt, hi] using hI i
-
-theorem restoreTop_inv (env : Env) (g : Nat) : ∀ (l : List Nat) (s : PyState), Inv env s → Inv env (restoreTop env g s l)
-  | [], _, hI => hI
-  | a :: rest, s, hI => restoreTop_inv env g rest _ (setTimegridSt_inv env s a g hI)
-
-theorem map_win_set : ∀ (l : List SubSt) (i : Nat) (b : SubSt), l[i]? = some b → ∀ (ptr : Option Nat),
-    (l.set i { b with grid := ptr }).map win = l.map win
-  | [], _, _, h, _ => by simp at h
-  | x :: xs, 0, b, h, ptr => by
-    simp only [List.getElem?_cons_zero, Option.some.injEq] at h
-    subst h
-    simp [win]
-  | x :: xs, i + 1, b, h, ptr => by
-    simp only [List.getElem?_cons_succ] at h
-    simp [map_win_set xs i b h ptr]
-
-theorem win_of_get {l : List SubSt} {m : List Params} (h : l.map win = m.map pwin) {i : Nat} {b : SubSt} {q : Params}
-    (hb : l[i]? = some b) (hq : m[i]? = some q) : b.start = q.start ∧ b.stop = q.stop := by
-  have := congrArg (fun z => z[i]?) h
-  simp only [List.getElem?_map, hb, hq, Option.map_some, Option.some.injEq, win, pwin, Prod.mk.injEq] at this
-  exact this
-
-theorem get_none_of_win {l : List SubSt} {m : List Params} (h : l.map win = m.map pwin) {i : Nat}
-    (hb : l[i]? = none) : m[i]? = none := by
-  have := congrArg (fun z => z[i]?) h
-  simp only [List.getElem?_map, hb, Option.map_none] at this
-  cases hm : m[i]? with
-  | none => rfl
-  | some q => rw [hm] at this; simp at this
-
-theorem setupSubSt_inv (v : Version) (env : Env) (s : PyState) (a i : Nat) (arg : Option Nat) (hI : Inv env s) :
-    Inv env (setupSubSt v env s a i arg).1 := by
-  simp only [setupSubSt]
-  cases hb : (s.assets a).sub[i]? with
-  | none => exact hI
-  | some b =>
-    cases hq : (env.asset a).subs[i]? with
-    | none => exact hI
-    | some q =>
-      simp only
-      rcases hbp : buildPlain v.rederive s.grids b.grid b.start b.stop q.freq q.wacc arg with ⟨G, ptr, r⟩
-      exact inv_upd hI a _ _ (by simpa [map_win_set _ i b hb ptr] using hI a)
-
-theorem setTimegridSubSt_inv (env : Env) (s : PyState) (a i g : Nat) (hI : Inv env s) :
-    Inv env (setTimegridSubSt env s a i g) := by
-  simp only [setTimegridSubSt]
-  cases hb : (s.assets a).sub[i]? with
-  | none => exact hI
-  | some b =>
-    cases hq : (env.asset a).subs[i]? with
-    | none => exact hI
-    | some q => exact inv_upd hI a _ _ (by simpa [map_win_set _ i b hb (some g)] using hI a)
-
-/-- direct set-up of a wrapped asset: reads the wrapped asset's own data, on the grid named or on the grid that asset
-    itself sits on -/
-theorem setupSubSt_eq (env : Env) (s : PyState) (a i : Nat) (arg : Option Nat) (hI : Inv env s) :
-    (setupSubSt current env s a i arg).2 = setupPure env (ownPtrs s) (.setupSub a i arg) := by
-  have hIa := hI a
-  simp only [setupSubSt, setupPure, ownPtrs]
-  cases hb : (s.assets a).sub[i]? with
-  | none => simp [get_none_of_win hIa hb]
-  | some b =>
-    cases hq : (env.asset a).subs[i]? with
-    | none => rfl
-    | some q =>
-      obtain ⟨h1, h2⟩ := win_of_get hIa hb hq
-      cases arg with
-      | some g => simp [buildPlain_arg, Except.map, h1, h2]
-      | none =>
-        cases hg : b.grid with
-        | none => simp [current, hg, buildPlain_none_none, Except.map]
-        | some g => simp [current, hg, buildPlain_rederive_some, Except.map, h1, h2]
-
-theorem inv_init (env : Env) : Inv env (init env) := by
-  intro a
-  simp [init, subInit, win, pwin, List.map_map, Function.comp_def]
-
-theorem setupSt_inv (v : Version) (env : Env) (s : PyState) (c : Call) (hI : Inv env s) : Inv env (setupSt v env s c).1 := by
-  cases c with
-  | setTimegrid a g => exact setTimegridSt_inv env s a g hI
-  | setup a arg => exact setupAsset_inv v env s a arg hI
-  | setTimegridSub a i g => exact setTimegridSubSt_inv env s a i g hI
-  | setupSub a i arg => exact setupSubSt_inv v env s a i arg hI
-  | setupPortfolio arg => exact (setupPortfolioSt_eq v env s arg hI).2
-  | setupSplit g tmp =>
-    have h := setupIntervals_eq v env tmp s hI
-    simp only [setupSt]
-    rcases hsi : setupIntervals v env s tmp with ⟨s1, r⟩
-    rw [hsi] at h
-    cases r with
-    | error e => exact h.2
-    | ok us => exact restoreTop_inv env g _ _ h.2
-  | dcf a => exact hI
-  | fillLevel a =>
-    simp only [setupSt]
-    cases (s.assets a).grid with
-    | none => exact hI
-    | some g => exact hI
-  | makeSlp g t =>
-    have hI1 : Inv env { s with grids := writeRestricted (writeRestricted s.grids g (some t, none, none)) g (none, some t, none) } := hI
-    exact (setupPortfolioSt_eq v env _ (some g) hI1).2
-
-theorem run_inv (v : Version) (env : Env) : ∀ (calls : List Call) (s : PyState), Inv env s → Inv env (run v env s calls)
-  | [], _, hI => hI
-  | c :: cs, s, hI => run_inv v env cs _ (setupSt_inv v env s c hI)
-
 /-! ### where the grid attributes point after a portfolio set-up -/
 
-/-- asset `a` and everything it wraps sit on grid object `g` -/
-def On (s : PyState) (g a : Nat) : Prop :=
-  (s.assets a).grid = some g ∧ ∀ b ∈ (s.assets a).sub, b.grid = some g
+/-- asset `a` and everything it wraps (at every depth) sit on grid object `g` -/
+def On (env : Env) (s : PyState) (g a : Nat) : Prop :=
+  ∀ p ∈ (env.asset a).paths, (s.objs (a :: p)).grid = some g
 
-theorem structuredBody_grids (rd : Bool) (G0 : Grids) (g : Nat) (p : Params) (inner : List Params) (sub : List SubSt) :
-    ∀ b ∈ (structuredBody rd G0 g p inner sub).2.1, b.grid = some g := by
-  obtain ⟨G', hG⟩ := buildInner_eq rd g
-    (((sub.zip inner).map (fun sq =>
-        (({ grid := some g, start := clipStart sq.1.start p.start, stop := clipStop sq.1.stop p.stop } : SubSt), sq.2)))
-      |>.foldl (fun G sq => writeSlots G g sq.1.start sq.1.stop sq.2.freq sq.2.wacc) G0)
-    ((sub.zip inner).map (fun sq =>
-        (({ grid := some g, start := clipStart sq.1.start p.start, stop := clipStop sq.1.stop p.stop } : SubSt), sq.2)))
-  intro b hb
-  simp only [structuredBody, hG, List.mem_map] at hb
-  obtain ⟨so, hso, rfl⟩ := hb
-  have h1 := (List.of_mem_zip hso).1
-  simp only [List.mem_map] at h1
-  obtain ⟨sq, _, hsq⟩ := h1
-  simp [← hsq]
-
-theorem setupAsset_arg_on (v : Version) (env : Env) (s : PyState) (a g : Nat) (hI : Inv env s) :
-    On (setupAsset v env s a (some g)).1 g a
-      ∧ (∀ i, i ≠ a → (setupAsset v env s a (some g)).1.assets i = s.assets i)
-      ∧ (setupAsset v env s a (some g)).1.pf = s.pf := by
-  cases h : env.asset a with
-  | plain p =>
-    have hsub : (s.assets a).sub = [] := by
-      have := hI a
-      rw [h] at this
-      simpa [Asset.subs] using this
-    refine ⟨⟨by simp [setupAsset, h, buildPlain_arg], ?_⟩, ?_, by simp [setupAsset, h, buildPlain_arg]⟩
-    · intro b hb
-      simp [setupAsset, h, buildPlain_arg, hsub] at hb
-    · intro i hi
-      simp [setupAsset, h, buildPlain_arg, hi]
-  | scaled p base =>
-    obtain ⟨x, hx, _, _⟩ := scaled_sub hI h
-    refine ⟨⟨by simp [setupAsset, h, hx, buildPlain_arg], ?_⟩, ?_, by simp [setupAsset, h, hx, buildPlain_arg]⟩
-    · intro b hb
-      simp [setupAsset, h, hx, buildPlain_arg] at hb
-      simp [hb]
-    · intro i hi
-      simp [setupAsset, h, hx, buildPlain_arg, hi]
-  | structured p inner =>
-    have hg := structuredBody_grids v.rederive (writeSlots s.grids g p.start p.stop p.freq p.wacc) g p inner (s.assets a).sub
-    rcases hb : structuredBody v.rederive (writeSlots s.grids g p.start p.stop p.freq p.wacc) g p inner (s.assets a).sub with ⟨G2, sub', r⟩
-    rw [hb] at hg
-    refine ⟨⟨by simp [setupAsset, h, hb], ?_⟩, ?_, by simp [setupAsset, h, hb]⟩
-    · intro b hbm
-      simp only [setupAsset, h, hb, if_true] at hbm
-      exact hg b hbm
-    · intro i hi
-      simp [setupAsset, h, hb, hi]
+theorem setupAt_top_on (v : Version) (env : Env) (s : PyState) (a g : Nat) :
+    On env (setupAt v env s [a] (some g)).1 g a
+      ∧ (∀ d, ((setupAt v env s [a] (some g)).1.objs d).grid = (s.objs d).grid ∨ ((setupAt v env s [a] (some g)).1.objs d).grid = some g)
+      ∧ (setupAt v env s [a] (some g)).1.pf = s.pf := by
+  unfold setupAt
+  rw [at_top]
+  simp only
+  have := setupTree_grids v (env.asset a) [a] g s.grids s.objs
+  rcases hr : setupTree v (env.asset a) [a] (some g) s.grids s.objs with ⟨G, O, r⟩
+  rw [hr] at this
+  exact ⟨fun p hp => by simpa using this.2.1 p hp, this.2.2, trivial⟩
 
 theorem setupAll_on (v : Version) (env : Env) (g : Nat) :
-    ∀ (l : List Nat) (s : PyState), Inv env s →
-      (setupAll v env g s l).1.pf = s.pf ∧ ∀ a, (a ∈ l ∨ On s g a) → On (setupAll v env g s l).1 g a
-  | [], s, _ => by
+    ∀ (l : List Nat) (s : PyState),
+      (setupAll v env g s l).1.pf = s.pf ∧ ∀ a, (a ∈ l ∨ On env s g a) → On env (setupAll v env g s l).1 g a
+  | [], s => by
     refine ⟨rfl, fun a h => ?_⟩
     rcases h with h | h
     · simp at h
     · exact h
-  | x :: rest, s, hI => by
-    have h1 := setupAsset_arg v env s x g hI
-    have h2 := setupAsset_inv v env s x (some g) hI
-    have h3 := setupAsset_arg_on v env s x g hI
-    rcases hsa : setupAsset v env s x (some g) with ⟨s1, r1⟩
-    rw [hsa] at h1 h2 h3
-    simp only at h1 h2 h3
-    subst h1
-    have ih := setupAll_on v env g rest s1 h2
-    have he := (setupAll_eq v env g rest s1 h2).1
+  | x :: rest, s => by
+    have h3 := setupAt_top_on v env s x g
+    have hok := setupTree_grids v (env.asset x) [x] g s.grids s.objs
+    rw [setupAll]
+    rcases hsa : setupAt v env s [x] (some g) with ⟨s1, r1⟩
+    rw [hsa] at h3
+    simp only at h3
+    have hr1 : ∃ us, r1 = .ok us := by
+      unfold setupAt at hsa
+      rw [at_top] at hsa
+      simp only at hsa
+      rcases hr : setupTree v (env.asset x) [x] (some g) s.grids s.objs with ⟨G, O, r⟩
+      rw [hr] at hsa hok
+      obtain ⟨us, hus⟩ := hok.1
+      simp only at hus
+      cases hsa
+      exact ⟨us, hus⟩
+    obtain ⟨us, rfl⟩ := hr1
+    simp only
+    have ih := setupAll_on v env g rest s1
     rcases hsr : setupAll v env g s1 rest with ⟨s2, r2⟩
-    rw [hsr] at ih he
-    simp only at ih he
-    subst he
-    simp only [setupAll, hsa, hsr]
-    refine ⟨ih.1.trans h3.2.2, ?_⟩
-    intro a ha
-    apply ih.2
-    by_cases hax : a = x
-    · subst hax; exact Or.inr h3.1
-    · rcases ha with ha | ha
-      · simp only [List.mem_cons] at ha
-        rcases ha with ha | ha
-        · exact absurd ha hax
-        · exact Or.inl ha
-      · right
-        unfold On
-        rw [h3.2.1 a hax]
-        exact ha
+    rw [hsr] at ih
+    simp only at ih
+    have key : ∀ a, (a ∈ x :: rest ∨ On env s g a) → On env s2 g a := by
+      intro a ha
+      apply ih.2
+      by_cases hax : a = x
+      · subst hax; exact Or.inr h3.1
+      · rcases ha with ha | ha
+        · simp only [List.mem_cons] at ha
+          rcases ha with ha | ha
+          · exact absurd ha hax
+          · exact Or.inl ha
+        · right
+          intro p hp
+          rcases h3.2.1 (a :: p) with h | h
+          · rw [h]; exact ha p hp
+          · exact h
+    cases r2 with
+    | ok vs => exact ⟨ih.1.trans h3.2.2, key⟩
+    | error e => exact ⟨ih.1.trans h3.2.2, key⟩
 
 /-! ### interval data -/
 
@@ -465,5 +916,27 @@ theorem map_some_getD : ∀ (es : List (Option Int)), es.all Option.isSome = tru
   | some x :: es, h => by
     simp only [List.all_cons, Option.isSome_some, Bool.true_and] at h
     simp [map_some_getD es h]
+
+/-! ### reading `pureAt` / `lastWriteL` -/
+
+theorem mem_pureList (g : Nat) : ∀ (inner : List Asset) (i : Nat) (c : Asset) (s e : Option Int) (u : Used), inner[i]? = some c →
+    u ∈ pureAt g c (clipStart c.params.start s) (clipStop c.params.stop e) → u ∈ pureList g inner s e
+  | [], i, c, s, e, u, h, _ => by simp at h
+  | x :: xs, 0, c, s, e, u, h, hu => by
+    simp only [List.getElem?_cons_zero, Option.some.injEq] at h
+    subst h
+    simp only [pureList, List.mem_append]
+    exact Or.inl hu
+  | x :: xs, i + 1, c, s, e, u, h, hu => by
+    simp only [List.getElem?_cons_succ] at h
+    simp only [pureList, List.mem_append]
+    exact Or.inr (mem_pureList g xs i c s e u h hu)
+
+theorem lastWriteL_append (g : Nat) (c : Asset) (s e : Option Int) : ∀ (cs : List Asset) (d : Used),
+    lastWriteL g (cs ++ [c]) s e d = lastWrite g c (clipStart c.params.start s) (clipStop c.params.stop e)
+  | [], d => by simp [lastWriteL]
+  | x :: xs, d => by
+    simp only [List.cons_append, lastWriteL]
+    exact lastWriteL_append g c s e xs _
 
 end EAO.State
